@@ -117,6 +117,13 @@ fn run_font_after(out: &mut Out, case: &str, cls: &str, carrier: &str, f: &BitFo
                         for ch in seq.borrow().chars() {
                             parser.print_char(&mut buf, 0, &mut caret, ch).map_err(|e| e.to_string())?;
                         }
+                        // a font is uploaded to be used: in two of three variants the slot is then selected (CSI 0 ; slot SP D) and
+                        // text is printed with it before the slot is read back
+                        if variant % 3 != 0 {
+                            for ch in format!("\x1b[0;{slot} DAb").chars() {
+                                let _ = parser.print_char(&mut buf, 0, &mut caret, ch);
+                            }
+                        }
                         Ok(buf.get_font(slot).filter(|x| x.name.starts_with("custom font")).cloned())
                     })
         }
